@@ -374,12 +374,14 @@ pub fn for_property(prop: &str, tier: Tier) -> Vec<(SysCfg, RunOpts)> {
             let m = menu(&["FE2", "EF3", "FO2", "FE1", "DB2", "DC2", "DN", "N,N", "C2:1,I", "B2x1:1,N", "S,N", "L,C3,H", "C0,N"]);
             s.pairs(&ks, &[2, 3, 4], &m, &m, &[Final::Seq], &complete2());
             if !q {
-                let m3 = menu(&["FE2", "FO3", "DB2", "N,S", "C2"]);
+                let m3 = menu(&["FE2", "FO3", "DB2", "N,S", "C2", "EF1", "L,N", "C3:1"]);
                 for &kind in &ks {
-                    for x in &m3 {
-                        for y in &m3 {
-                            for z in &m3 {
-                                s.add(SysCfg { kind, len: 4, plans: vec![x.clone(), y.clone(), z.clone()], fin: Final::Seq, fault: Fault::None }, bounded(2));
+                    for len in [3, 4] {
+                        for x in &m3 {
+                            for y in &m3 {
+                                for z in &m3 {
+                                    s.add(SysCfg { kind, len, plans: vec![x.clone(), y.clone(), z.clone()], fin: Final::Seq, fault: Fault::None }, bounded(b3));
+                                }
                             }
                         }
                     }
